@@ -11,6 +11,8 @@ package zkmul
 
 //@ func (*Proof).Verify
 //@   nopanic[C10]
+//@   modifies nothing
+//@   allocates
 //@   requires group != nil && hash != nil && hash.h != nil && public.X != nil && public.Y != nil && public.C != nil && pkok(public.Prover)
 
 //@ func challenge
